@@ -5,6 +5,8 @@ namespace verif_inst {
 using namespace BitSerializer;
 std::optional<std::string> required_i32(const Required& v, const int& value, bool loaded) { return v(value, loaded); }
 std::optional<std::string> range_i32(const Range<int>& v, const int& value, bool loaded) { return v(value, loaded); }
+std::optional<std::string> range_u8(const Range<unsigned char>& v, const unsigned char& value, bool loaded) { return v(value, loaded); }
+std::optional<std::string> range_i16(const Range<short>& v, const short& value, bool loaded) { return v(value, loaded); }
 std::optional<std::string> range_u64(const Range<unsigned long>& v, const unsigned long& value, bool loaded) { return v(value, loaded); }
 std::optional<std::string> range_f64(const Range<double>& v, const double& value, bool loaded) { return v(value, loaded); }
 std::optional<std::string> minsize_str(const MinSize& v, const std::string& value, bool loaded) { return v(value, loaded); }
